@@ -468,6 +468,98 @@ theorem c01_n_kept_under_selection (arg : Option ℕ) (nRaw nSel nSel' : ℕ) :
   simp only [trialCounts]
   omega
 
+/-! ### Every composition: the datatype `RExpr` -/
+
+/-- **Compositions evaluate event-wise.**  Whenever the composed object returns an array at all
+(`eval = some Rs`; `none` is numpy's shape error), its `i`-th value is the product of what its leaves
+give for event `i` — for arbitrarily nested `PDFRatioProduct`s and `SigOverBkgPDFRatio`s. -/
+theorem c01_composition_values (e : RExpr ℝ) (Rs : List ℝ) (h : e.eval = some Rs) :
+    ∀ i (hi : i < Rs.length), Rs[i] = e.denote i := by
+  induction e generalizing Rs with
+  | leaf r =>
+    simp only [RExpr.eval, Option.some.injEq] at h
+    subst h
+    intro i hi
+    simp [RExpr.denote, List.getD_eq_getElem?_getD, hi]
+  | prod a b iha ihb =>
+    simp only [RExpr.eval] at h
+    cases hx : a.eval with
+    | none => simp [hx] at h
+    | some x =>
+      cases hy : b.eval with
+      | none => simp [hx, hy] at h
+      | some y =>
+        simp only [hx, hy, ratioProductChecked] at h
+        by_cases hl : x.length = y.length
+        · rw [if_pos hl] at h
+          simp only [Option.some.injEq] at h
+          subst h
+          intro i hi
+          have hix : i < x.length := by simp [ratioProduct] at hi; omega
+          have hiy : i < y.length := by omega
+          simp only [ratioProduct, List.getElem_zipWith, RExpr.denote]
+          rw [iha x hx i hix, ihb y hy i hiy]
+        · rw [if_neg hl] at h; simp at h
+  | sob zb s b =>
+    simp only [RExpr.eval] at h
+    by_cases hl : s.length = b.length
+    · rw [if_pos hl] at h
+      simp only [Option.some.injEq] at h
+      subst h
+      intro i hi
+      have his : i < s.length := by simp at hi; omega
+      have hib : i < b.length := by omega
+      simp [RExpr.denote, List.getD_eq_getElem?_getD, his, hib]
+    · rw [if_neg hl] at h; simp at h
+
+/-- … hence the log-likelihood ratio of *any* composition is the documented formula evaluated on the
+event-wise products. -/
+theorem c01_composition (opa ns : ℝ) (N : ℕ) (e : RExpr ℝ) (Rs : List ℝ) (h : e.eval = some Rs) :
+    llrOfRatios opa N ns Rs = docLogLambda opa N ns ((List.range Rs.length).map e.denote) := by
+  have : Rs = (List.range Rs.length).map e.denote := by
+    apply List.ext_getElem (by simp)
+    intro i h1 h2
+    simp [c01_composition_values e Rs h i h1]
+  rw [c01_eq_documented_formula]
+  conv_lhs => rw [this]
+
+/-- nesting does not matter: `(a·b)·c` and `a·(b·c)` denote the same values -/
+theorem c01_product_assoc (a b c : RExpr ℝ) (i : ℕ) :
+    (RExpr.prod (.prod a b) c).denote i = (RExpr.prod a (.prod b c)).denote i := by
+  simp [RExpr.denote, mul_assoc]
+
+/-! ### Trials on one object: the trial data manager's state -/
+
+/-- the state `initialize_trial` leaves behind for a trial -/
+def C01.stateOf (c : Option ℕ × List ℝ × List Bool) : TrialState ℝ :=
+  { nEvents := (trialCounts c.1 c.2.1.length
+      (((c.2.1.zip c.2.2).filter (fun p => p.2)).map (fun p => p.1)).length).1,
+    sel := ((c.2.1.zip c.2.2).filter (fun p => p.2)).map (fun p => p.1) }
+
+/-- **No dependence on earlier trials** (refinement): on one trial data manager / LLH-ratio object,
+whatever trials were initialised and evaluated before, every `evaluate` returns the stateless
+`evalSel` of the *most recent* `initialize_trial` — its events, its selection, its event count —
+and raises exactly when no trial was initialised yet. -/
+theorem c01_trials_refine (opa : ℝ) (cur : Option (Option ℕ × List ℝ × List Bool))
+    (ops : List (TrialOp ℝ)) :
+    trialRun opa (cur.map C01.stateOf) ops = trialSpec opa cur ops := by
+  induction ops generalizing cur with
+  | nil => rfl
+  | cons op rest ih =>
+    cases op with
+    | newTrial nArg Rs keep =>
+      simp only [trialRun, trialStep, trialSpec]
+      exact ih (some (nArg, Rs, keep))
+    | eval ns =>
+      cases cur with
+      | none =>
+        simp only [trialRun, trialStep, trialSpec, Option.map_none]
+        rw [← ih none]; rfl
+      | some c =>
+        simp only [trialRun, trialStep, trialSpec, Option.map_some]
+        rw [← ih (some c)]
+        rfl
+
 /-! ### non-vacuity: the hypotheses used above are satisfiable by ordinary inputs -/
 
 example : (0 : ℝ) < 1e-3 ∧ (1e-3 : ℝ) < 1 := by norm_num
@@ -497,3 +589,10 @@ example : ([1, 2, 3] : List ℝ).Perm [3, 1, 2] := by
 example : lamOfAlpha (1e-3 : ℝ) (-1) = taylorBranch 1e-3 (-1) := by
   have : ¬ ((1e-3 : ℝ) - 1 < -1) := by norm_num
   simp [lamOfAlpha, this]
+-- a nested composition that evaluates: (leaf · leaf) · sob
+example : (RExpr.prod (.prod (.leaf [2, 3]) (.leaf [1, 1])) (.sob 1 [4, 1] [2, 0]) : RExpr ℝ).eval
+    = some [4, 3] := by
+  norm_num [RExpr.eval, ratioProductChecked, ratioProduct, ratioSOB]
+-- and one that does not (shape mismatch)
+example : (RExpr.prod (.leaf [2, 3]) (.leaf [1]) : RExpr ℝ).eval = none := by
+  simp [RExpr.eval, ratioProductChecked]
